@@ -49,7 +49,7 @@ SameTextTwoFiles(key) ==
 Agrees(key) ==
    LET l1 == L1Of(key)  l2 == L2Of(key) IN
    \/ l2 = l1
-   \/ (l1 \in {"dangling", "wrongkind"} /\ l2 = "error")
+   \/ (l1 \in {"dangling", "wrongkind", "brokenfile"} /\ l2 = "error")
    \/ (l1 = "cycle" /\ l2 = "nil")                     \* F-C02-3
    \/ NeverVisited(key)                                \* F-C02-1
    \/ SameTextTwoFiles(key)                            \* F-C02-2
@@ -63,7 +63,7 @@ Clean == /\ case.shape \notin {"conflation", "refcycle"}
          /\ \A key \in SiteKeys : ~NeverVisited(key) /\ ~SameTextTwoFiles(key)
 StrictOnClean == Clean => \A key \in SiteKeys :
                     LET l1 == L1Of(key)  l2 == L2Of(key) IN
-                    l2 = l1 \/ (l1 \in {"dangling", "wrongkind"} /\ l2 = "error") \/ (l2 = "nil" /\ LoadFails(U0, Pos))
+                    l2 = l1 \/ (l1 \in {"dangling", "wrongkind", "brokenfile"} /\ l2 = "error") \/ (l2 = "nil" /\ LoadFails(U0, Pos))
 (* ... and on the conflation universes it must reproduce the defect: some site resolves to a     *)
 (* concrete object other than the designated one                                                 *)
 ReproducesConflation == case.shape = "conflation" =>
